@@ -6,6 +6,7 @@ def obligations():
     from props import selftest_ob
     obs += selftest_ob.parser_obligations('O12.0')
     obs += parser_ob.obligations_parse_entry('O12.5')
+    obs += parser_ob.obligations_lexer_wrapper('O12.6')
     try:
         from props import e1_obs
         obs += e1_obs.c12_obligations()
